@@ -1013,3 +1013,9 @@ pub fn record(args: &[String], out: &mut Out) {
     }
     out.add("events", events);
 }
+
+/// Build a real header from a Gen_Wire header case (used by the serde replays).
+pub fn header_from_case(c: &Value, r: &mut Rng, ctx: &mut Ctx) -> BlockHeader {
+    fill_header(&c["h"], r, ctx);
+    build_header(&c["h"], ctx)
+}
